@@ -77,6 +77,8 @@ def static_gate():
     """No Admitted/admit/Axiom/Parameter/...; Variable/Hypothesis/Context only inside a Section."""
     problems = []
     files = []
+    with Lock("coq"):
+        coq_makefile()   # (re)generates _CoqProject from the tree
     for root, _, fs in os.walk(COQ):
         for f in fs:
             if f.endswith(".v"):
@@ -287,11 +289,11 @@ def build_harness(crate="seqdrv", exe=None, release=True):
         return os.path.join(tgt, "release" if release else "debug", exe or crate), ""
 
 
-def run_lines(exe, lines, timeout=1200, shards=8, env=None):
+def run_lines(exe, lines, timeout=1200, shards=8, env=None, per_shard=50):
     """feed case lines to a line driver, sharded over processes; returns list of output lines"""
     if not lines:
         return []
-    n = max(1, min(shards, len(lines) // 50 + 1))
+    n = max(1, min(shards, len(lines) // per_shard + 1))
     chunks = [lines[i::n] for i in range(n)]
     procs = []
     for ch in chunks:
